@@ -343,6 +343,7 @@ def exitInfo (e : Exit) (i0 : EInfo) : EInfo :=
   | .converged _ => .success
   | .orthRFailed _ => .numericalIssue
   | .orthDFailed _ => .numericalIssue
+  | .gramFailed _ => .numericalIssue
   | .rrFailed _ => .noConvergence
   | .rrThrew _ => i0
   | .exhausted => i0
@@ -399,7 +400,8 @@ theorem finalize_frame (t : α) (s : St α V) (l : Loc V) :
   unfold finalize; simp only []; split <;> exact ⟨rfl, rfl, rfl, rfl⟩
 
 theorem finalize_info (t : α) (s : St α V) (l : Loc V) :
-    (Passes K c t (residual l.AX l.BX s.evals) → (finalize K c t s l).info = .success) ∧
+    (Passes K c t (residual l.AX l.BX s.evals) →
+      (finalize K c t s l).info = if K.borth s.X l.BX then .success else .numericalIssue) ∧
     (¬ Passes K c t (residual l.AX l.BX s.evals) → (finalize K c t s l).info = s.info) := by
   unfold finalize; simp only []
   have hb := blockSize_zero_iff K c t (residual l.AX l.BX s.evals)
